@@ -199,7 +199,7 @@ Qed.
 Lemma expr_eqb_sound : forall n e e' s mu C r, expr_eqb e e' = true ->
   eval N P n s mu C e = ROk r -> eval N P n s mu C e' = ROk r.
 Proof.
-  intros n e e' s mu C r He H. unfold expr_eqb in He.
+  clear HK1 claim_sound. intros n e e' s mu C r He H. unfold expr_eqb in He.
   replace n with (n + 0)%nat by lia.
   eapply (vexpr_sound N P 0 no_leaf no_kb (fun _ _ _ => True)); try eassumption; auto.
   - intros; discriminate.
@@ -209,7 +209,7 @@ Qed.
 Lemma exprs_eqb_sound : forall n es es' s mu C r, vexprs no_leaf no_kb [] es es' = true ->
   evals N P n s mu C es = ROk r -> evals N P n s mu C es' = ROk r.
 Proof.
-  intros n es es' s mu C r He H.
+  clear HK1 claim_sound. intros n es es' s mu C r He H.
   replace n with (n + 0)%nat by lia.
   eapply (vexprs_sound N P 0 no_leaf no_kb (fun _ _ _ => True)); try eassumption; auto.
   - intros; discriminate.
@@ -301,4 +301,348 @@ Proof.
   - apply Arw_top; assumption.
 Qed.
 
+
+(* ---------------------------------------------------------------- statements *)
+Definition post (E' : facts) (o : outcome) : Prop :=
+  match o with ONormal s' => Inv E' s' | OReturn _ => True end.
+
+Notation LF := (leaf_rw K claim_ok).
+Notation KB := (kb_rw claim_ok).
+
+Lemma Inv_gen : forall E p e e' n m s mu C v mu1 s',
+  Inv E s -> eval N P n s mu C e = ROk (v, mu1) -> eval N P m s mu C e' = ROk (v, mu1) ->
+  bind_pat p v s = Ok s' -> Inv (gen K p e e' (kill (pvars p) E)) s'.
+Proof.
+  intros E p e e' n m s mu C v mu1 s' HI He He' Hb.
+  pose proof (bind_pat_keeps _ _ _ _ Hb) as Hk.
+  pose proof (Inv_kill E (pvars p) s s' HI Hk) as HI'.
+  destruct p as [x| |ps]; cbn [gen]; try exact HI'.
+  cbn [pvars] in *. cbn in Hb. inversion Hb; subst s'. clear Hb.
+  assert (X : forall a k, eval N P k s mu C a = ROk (v, mu1) ->
+    simple a && negb (vmem x (evars a)) && Nat.leb (lit_depth a) K = true -> fact_ok (env_set s x v) (x, a)).
+  { intros a k Ha Hc. apply andb_prop in Hc. destruct Hc as [Hc Hd]. apply andb_prop in Hc. destruct Hc as [Hs Hx].
+    apply Nat.leb_le in Hd. apply negb_true_iff in Hx.
+    unfold fact_ok. cbn [fst snd]. split; [exact Hs|]. split; [exact Hd|]. exists v. split.
+    - apply env_get_set_same.
+    - destruct (simple_eval _ _ _ _ _ _ _ Hs Ha) as [Sv _]. rewrite <- Sv.
+      apply (sval_keeps a [x] s (env_set s x v) Hk). unfold vdisj. apply forallb_forall. intros z Hz.
+      apply negb_true_iff. apply vmem_false. intros [Hzx|[]]. subst z.
+      apply vmem_false in Hx. apply Hx. exact Hz. }
+  intros xe Hin. apply in_app_or in Hin. destruct Hin as [Hin|Hin].
+  - destruct (simple e && negb (vmem x (evars e)) && Nat.leb (lit_depth e) K) eqn:G; [|destruct Hin].
+    destruct Hin as [<-|[]]. eapply X; eassumption.
+  - apply in_app_or in Hin. destruct Hin as [Hin|Hin].
+    + destruct (simple e' && negb (vmem x (evars e')) && Nat.leb (lit_depth e') K) eqn:G; [|destruct Hin].
+      destruct Hin as [<-|[]]. eapply X; eassumption.
+    + apply HI'. exact Hin.
+Qed.
+
+Lemma index_walk_rw : forall E oc idx idx', vexprs (LF E oc) (KB E oc) [] idx idx' = true ->
+  forall n s mu C cur v m, Inv E s -> ctx_ok oc C ->
+  index_walk N P n s mu C cur idx v = ROk m -> index_walk N P (n + K) s mu C cur idx' v = ROk m.
+Proof.
+  intros E oc idx. induction idx as [|i rest IH]; intros idx' Hv n s mu C cur v m HI Hc H.
+  - destruct n; [discriminate|]. rewrite index_walk_S in H. discriminate.
+  - destruct idx' as [|i' rest']; [discriminate|]. cbn [vexprs] in Hv. apply andb_prop in Hv. destruct Hv as [Hi Hr].
+    destruct n; [discriminate|]. change (S n + K)%nat with (S (n + K)).
+    rewrite index_walk_S in *. unfold index_walk_body in *.
+    destruct rest as [|j rest].
+    + destruct rest' as [|? ?]; [|discriminate].
+      destruct (rbind_ok _ _ _ _ _ H) as ([vi m1] & E1 & H1). clear H.
+      rewrite (vx_rw E oc n i i' s mu C _ Hi HI Hc E1). cbn [rbind]. exact H1.
+    + destruct rest' as [|j' rest']; [discriminate|].
+      destruct (rbind_ok _ _ _ _ _ H) as ([vi m1] & E1 & H1). clear H.
+      rewrite (vx_rw E oc n i i' s mu C _ Hi HI Hc E1). cbn [rbind].
+      destruct (cvt_index vi) as [k| |]; cbn [rbind] in *; try discriminate.
+      destruct (as_list m1 cur) as [[l0 vs]| |]; cbn [rbind] in *; try discriminate.
+      destruct (list_nth vs k) as [nxt| |]; cbn [rbind] in *; try discriminate.
+      eapply IH; eassumption.
+Qed.
+
+Lemma while_rw : forall Eh oc c c' body body',
+  vexpr (LF Eh oc) (KB Eh oc) [] c c' = true ->
+  (forall n s mu C o mu', Inv Eh s -> ctx_ok oc C -> exec_block N P n s mu C body = ROk (o, mu') ->
+     exec_block N P (n + K) s mu C body' = ROk (o, mu')) ->
+  (forall s s', Inv Eh s -> keeps (bound_block body) s s' -> Inv Eh s') ->
+  forall n s mu C o mu', Inv Eh s -> ctx_ok oc C -> exec N P n s mu C (SWhile c body) = ROk (o, mu') ->
+    exec N P (n + K) s mu C (SWhile c' body') = ROk (o, mu') /\ post Eh o.
+Proof.
+  intros Eh oc c c' body body' Hvc Hb Hstab. induction n as [|n IH]; intros s mu C o mu' HI Hc H; [discriminate|].
+  change (S n + K)%nat with (S (n + K)). rewrite exec_S in *. unfold exec_body in *.
+  destruct (rbind_ok _ _ _ _ _ H) as ([vc m1] & E1 & H1). clear H.
+  rewrite (vx_rw Eh oc n c c' s mu C _ Hvc HI Hc E1). cbn [rbind].
+  destruct (as_bool vc) as [t| |]; cbn [rbind] in *; try discriminate.
+  destruct t.
+  - destruct (rbind_ok _ _ _ _ _ H1) as ([o1 m2] & E2 & H2). clear H1.
+    rewrite (Hb n s m1 C o1 m2 HI Hc E2). cbn [rbind].
+    destruct o1 as [s1|v1].
+    + apply IH; try assumption. eapply Hstab; [exact HI|]. eapply exec_block_frame; eassumption.
+    + inversion H2; subst. split; [reflexivity | exact I].
+  - inversion H1; subst. split; [reflexivity | exact HI].
+Qed.
+
+Lemma for_rw : forall Eh oc p body body',
+  (forall n s mu C o mu', Inv Eh s -> ctx_ok oc C -> exec_block N P n s mu C body = ROk (o, mu') ->
+     exec_block N P (n + K) s mu C body' = ROk (o, mu')) ->
+  (forall s s', Inv Eh s -> keeps (pvars p ++ bound_block body) s s' -> Inv Eh s') ->
+  forall n s mu C l i o mu', Inv Eh s -> ctx_ok oc C -> for_loop N P n s mu C p l i body = ROk (o, mu') ->
+    for_loop N P (n + K) s mu C p l i body' = ROk (o, mu') /\ post Eh o.
+Proof.
+  intros Eh oc p body body' Hb Hstab. induction n as [|n IH]; intros s mu C l i o mu' HI Hc H; [discriminate|].
+  change (S n + K)%nat with (S (n + K)). rewrite for_loop_S in *. unfold for_loop_body in *.
+  destruct (store_get mu l) as [vs|]; [|discriminate].
+  destruct (nth_error vs i) as [x|]; [|inversion H; subst; split; [reflexivity | exact HI]].
+  destruct (bind_pat p x s) as [s1|] eqn:B; cbn [lift rbind] in *; [|discriminate].
+  assert (HI1 : Inv Eh s1).
+  { eapply Hstab; [exact HI|]. eapply keeps_incl; [eapply bind_pat_keeps; exact B|].
+    intros z Hz. apply in_or_app. left. exact Hz. }
+  destruct (rbind_ok _ _ _ _ _ H) as ([o1 m2] & E2 & H2). clear H.
+  rewrite (Hb n s1 mu C o1 m2 HI1 Hc E2). cbn [rbind].
+  destruct o1 as [s2|v1].
+  - apply IH; try assumption. eapply Hstab; [exact HI1|].
+    eapply keeps_incl; [eapply exec_block_frame; exact E2|]. intros z Hz. apply in_or_app. right. exact Hz.
+  - inversion H2; subst. split; [reflexivity | exact I].
+Qed.
+
+Definition rw_at (d : nat) : Prop :=
+  (forall E oc st st' E', vrw K claim_ok guess_ctx d E oc st st' = Some E' ->
+     forall n s mu C o mu', Inv E s -> ctx_ok oc C -> exec N P n s mu C st = ROk (o, mu') ->
+       exec N P (n + K) s mu C st' = ROk (o, mu') /\ post E' o) /\
+  (forall E oc b b' E', vrwb K claim_ok guess_ctx d E oc b b' = Some E' ->
+     forall n s mu C o mu', Inv E s -> ctx_ok oc C -> exec_block N P n s mu C b = ROk (o, mu') ->
+       exec_block N P (n + K) s mu C b' = ROk (o, mu') /\ post E' o).
+
+Lemma post_frame_kill : forall E W s o, Inv E s -> okeeps W s o -> post (kill W E) o.
+Proof. intros E W s [s'|v] HI Hk; cbn in *; auto. eapply Inv_kill; eassumption. Qed.
+
+Lemma guess_checked_ok : forall E e' c n s mu v mu1, guess_checked claim_ok guess_ctx E e' = Some c -> Inv E s ->
+  eval N P n s mu CReal e' = ROk (v, mu1) -> v = VCtx c.
+Proof.
+  intros E e' c n s mu v mu1 Hk HI H. unfold guess_checked in Hk.
+  destruct (guess_ctx (lit_facts E) e') as [c0|] eqn:G; [|discriminate].
+  match type of Hk with (if ?b then _ else _) = _ => destruct b eqn:B end; [|discriminate].
+  inversion Hk; subst c0. apply andb_prop in B. destruct B as [B Hcl]. apply andb_prop in B. destruct B as [Hp Hfv].
+  assert (Hag : agree (efv [] e') s (env_of_facts (lit_facts E))).
+  { intros x Hx. rewrite forallb_forall in Hfv. symmetry. apply env_of_facts_get; [exact HI | apply Hfv; exact Hx]. }
+  rewrite (eval_agree N P n _ s (env_of_facts (lit_facts E)) mu CReal e' Hag (incl_refl _)) in H.
+  destruct (claim_sound _ Hcl n mu CReal _ eq_refl H) as (w & Lw & Hr). cbn in Lw. inversion Lw; subst w.
+  inversion Hr. reflexivity.
+Qed.
+
+Lemma known_ctx_ok : forall E e' c n s mu v mu1, known_ctx claim_ok guess_ctx E e' = Some c -> Inv E s ->
+  eval N P n s mu CReal e' = ROk (v, mu1) -> v = VCtx c.
+Proof.
+  intros E e' c n s mu v mu1 Hk HI H.
+  destruct e'; cbn [known_ctx] in Hk; try (eapply guess_checked_ok; eassumption).
+  inversion Hk; subst. destruct n; [discriminate|]. rewrite eval_S in H. unfold eval_body in H. inversion H. reflexivity.
+Qed.
+
+Notation VRW := (vrw K claim_ok guess_ctx).
+Notation VRWB := (vrwb K claim_ok guess_ctx).
+
+Lemma vrw_assign : forall d E oc p e p' e', VRW (S d) E oc (SAssign p e) (SAssign p' e') =
+  if pat_eqb p p' && vexpr (LF E oc) (KB E oc) [] e e' then Some (gen K p e e' (kill (pvars p) E)) else None.
+Proof. reflexivity. Qed.
+Lemma vrw_iassign : forall d E oc x idx e x' idx' e', VRW (S d) E oc (SIndexAssign x idx e) (SIndexAssign x' idx' e') =
+  if String.eqb x x' && vexprs (LF E oc) (KB E oc) [] idx idx' && vexpr (LF E oc) (KB E oc) [] e e' then Some E else None.
+Proof. reflexivity. Qed.
+Lemma vrw_if1 : forall d E oc c body c' body', VRW (S d) E oc (SIf1 c body) (SIf1 c' body') =
+  if vexpr (LF E oc) (KB E oc) [] c c' then
+    match VRWB d E oc body body' with Some _ => Some (kill (bound_block body) E) | None => None end
+  else None.
+Proof. reflexivity. Qed.
+Lemma vrw_if : forall d E oc c t f c' t' f', VRW (S d) E oc (SIf c t f) (SIf c' t' f') =
+  if vexpr (LF E oc) (KB E oc) [] c c' then
+    match VRWB d E oc t t', VRWB d E oc f f' with
+    | Some _, Some _ => Some (kill (bound_block t ++ bound_block f) E)
+    | _, _ => None
+    end
+  else None.
+Proof. reflexivity. Qed.
+Lemma vrw_while : forall d E oc c body c' body', VRW (S d) E oc (SWhile c body) (SWhile c' body') =
+  let Eh := kill (bound_block body) E in
+  if vexpr (LF Eh oc) (KB Eh oc) [] c c' then
+    match VRWB d Eh oc body body' with Some _ => Some Eh | None => None end
+  else None.
+Proof. reflexivity. Qed.
+Lemma vrw_for : forall d E oc p it body p' it' body', VRW (S d) E oc (SFor p it body) (SFor p' it' body') =
+  let Eh := kill (pvars p ++ bound_block body) E in
+  if pat_eqb p p' && vexpr (LF E oc) (KB E oc) [] it it' then
+    match VRWB d Eh oc body body' with Some _ => Some Eh | None => None end
+  else None.
+Proof. reflexivity. Qed.
+Lemma vrw_context : forall d E oc x e body x' e' body', VRW (S d) E oc (SContext x e body) (SContext x' e' body') =
+  if oident_eqb x x' && vexpr (LF E (Some CReal)) (KB E (Some CReal)) [] e e' then
+    let oc' := known_ctx claim_ok guess_ctx E e' in
+    let E1 := kill (ovar x) E in
+    let E2 := match x, oc' with Some x, Some c => (x, ECtxVal c) :: E1 | _, _ => E1 end in
+    VRWB d E2 oc' body body'
+  else None.
+Proof. reflexivity. Qed.
+Lemma vrw_assert : forall d E oc e e', VRW (S d) E oc (SAssert e) (SAssert e') =
+  if vexpr (LF E oc) (KB E oc) [] e e' then Some E else None.
+Proof. reflexivity. Qed.
+Lemma vrw_effect : forall d E oc e e', VRW (S d) E oc (SEffect e) (SEffect e') =
+  if vexpr (LF E oc) (KB E oc) [] e e' then Some E else None.
+Proof. reflexivity. Qed.
+Lemma vrw_return : forall d E oc e e', VRW (S d) E oc (SReturn e) (SReturn e') =
+  if vexpr (LF E oc) (KB E oc) [] e e' then Some E else None.
+Proof. reflexivity. Qed.
+Lemma vrwb_cons : forall d E oc st r st' r', VRWB (S d) E oc (st :: r) (st' :: r') =
+  match VRW d E oc st st' with Some E1 => VRWB d E1 oc r r' | None => None end.
+Proof. reflexivity. Qed.
+
+Lemma rw_step : forall d, rw_at d -> rw_at (S d).
+Proof.
+  intros d (IHs & IHb). split.
+  - (* statements *)
+    intros E oc st st' E' Hv n s mu C o mu' HI Hc H.
+    destruct n; [discriminate|]. change (S n + K)%nat with (S (n + K)).
+    destruct st, st'; try (cbn [vrw] in Hv; discriminate Hv).
+    + (* SAssign *)
+      rewrite vrw_assign in Hv.
+      match type of Hv with (if ?b then _ else _) = _ => destruct b eqn:B end; [|discriminate].
+      inversion Hv; subst E'. clear Hv. apply andb_prop in B. destruct B as [Bp Be]. apply pat_eqb_eq in Bp. subst p0.
+      rewrite exec_S in *. unfold exec_body in *.
+      destruct (rbind_ok _ _ _ _ _ H) as ([v m1] & E1 & H1). clear H.
+      pose proof (vx_rw E oc n e e0 s mu C _ Be HI Hc E1) as E1'. rewrite E1'. cbn [rbind].
+      destruct (bind_pat p v s) as [s'|] eqn:Bd; cbn [lift rbind] in *; [|discriminate].
+      inversion H1; subst. split; [reflexivity|]. cbn [post]. eapply Inv_gen; eassumption.
+    + (* SIndexAssign *)
+      rewrite vrw_iassign in Hv.
+      match type of Hv with (if ?b then _ else _) = _ => destruct b eqn:B end; [|discriminate].
+      inversion Hv; subst E'. clear Hv. apply andb_prop in B. destruct B as [B Be]. apply andb_prop in B. destruct B as [Bx Bi].
+      apply String.eqb_eq in Bx. subst x0.
+      rewrite exec_S in *. unfold exec_body in *.
+      destruct (rbind_ok _ _ _ _ _ H) as ([v m1] & E1 & H1). clear H.
+      rewrite (vx_rw E oc n e e0 s mu C _ Be HI Hc E1). cbn [rbind].
+      destruct (env_get s x) as [cur|]; [|discriminate].
+      destruct (rbind_ok _ _ _ _ _ H1) as (m2 & E2 & H2). clear H1.
+      rewrite (index_walk_rw E oc idx idx0 Bi n s m1 C cur v m2 HI Hc E2). cbn [rbind].
+      inversion H2; subst. split; [reflexivity | exact HI].
+    + (* SIf1 *)
+      rewrite vrw_if1 in Hv.
+      match type of Hv with (if ?b then _ else _) = _ => destruct b eqn:B end; [|discriminate].
+      destruct (vrwb K claim_ok guess_ctx d E oc body body0) as [Eb|] eqn:Vb; [|discriminate].
+      inversion Hv; subst E'. clear Hv.
+      pose proof (frame_all N P (S n)) as (Fex & _). pose proof (Fex _ _ _ _ _ _ H) as Hfr. cbn [bound] in Hfr.
+      rewrite exec_S in *. unfold exec_body in *.
+      destruct (rbind_ok _ _ _ _ _ H) as ([vc m1] & E1 & H1). clear H.
+      rewrite (vx_rw E oc n c c0 s mu C _ B HI Hc E1). cbn [rbind].
+      destruct (as_bool vc) as [t| |]; cbn [rbind] in *; try discriminate.
+      destruct t.
+      * destruct (IHb _ _ _ _ _ Vb n s m1 C o mu' HI Hc H1) as [X _]. split; [exact X|].
+        eapply post_frame_kill; eassumption.
+      * inversion H1; subst. split; [reflexivity|]. cbn [post]. apply Inv_weaken. exact HI.
+    + (* SIf *)
+      rewrite vrw_if in Hv.
+      match type of Hv with (if ?b then _ else _) = _ => destruct b eqn:B end; [|discriminate].
+      destruct (vrwb K claim_ok guess_ctx d E oc ift ift0) as [Et|] eqn:Vt; [|discriminate].
+      destruct (vrwb K claim_ok guess_ctx d E oc iff iff0) as [Ef|] eqn:Vf; [|discriminate].
+      inversion Hv; subst E'. clear Hv.
+      pose proof (frame_all N P (S n)) as (Fex & _). pose proof (Fex _ _ _ _ _ _ H) as Hfr. cbn [bound] in Hfr.
+      rewrite exec_S in *. unfold exec_body in *.
+      destruct (rbind_ok _ _ _ _ _ H) as ([vc m1] & E1 & H1). clear H.
+      rewrite (vx_rw E oc n c c0 s mu C _ B HI Hc E1). cbn [rbind].
+      destruct (as_bool vc) as [t| |]; cbn [rbind] in *; try discriminate.
+      destruct t.
+      * destruct (IHb _ _ _ _ _ Vt n s m1 C o mu' HI Hc H1) as [X _]. split; [exact X|].
+        eapply post_frame_kill; eassumption.
+      * destruct (IHb _ _ _ _ _ Vf n s m1 C o mu' HI Hc H1) as [X _]. split; [exact X|].
+        eapply post_frame_kill; eassumption.
+    + (* SWhile *)
+      rewrite vrw_while in Hv. cbv zeta in Hv.
+      match type of Hv with (if ?b then _ else _) = _ => destruct b eqn:B end; [|discriminate].
+      destruct (vrwb K claim_ok guess_ctx d (kill (bound_block body) E) oc body body0) as [Eb|] eqn:Vb; [|discriminate].
+      inversion Hv; subst E'. clear Hv.
+      change (S (n + K)) with (S n + K)%nat.
+      eapply (while_rw (kill (bound_block body) E) oc c c0 body body0 B); try eassumption.
+      * intros n0 s0 mu0 C0 o0 mu0' HI0 Hc0 H0. destruct (IHb _ _ _ _ _ Vb n0 s0 mu0 C0 o0 mu0' HI0 Hc0 H0) as [X _]. exact X.
+      * intros s0 s0' HI0 Hk0. eapply Inv_kill_stable; [exact HI0 | exact Hk0 | apply incl_refl].
+      * apply Inv_weaken. exact HI.
+    + (* SFor *)
+      rewrite vrw_for in Hv. cbv zeta in Hv.
+      match type of Hv with (if ?b then _ else _) = _ => destruct b eqn:B end; [|discriminate].
+      destruct (vrwb K claim_ok guess_ctx d (kill (pvars p ++ bound_block body) E) oc body body0) as [Eb|] eqn:Vb; [|discriminate].
+      inversion Hv; subst E'. clear Hv. apply andb_prop in B. destruct B as [Bp Bi]. apply pat_eqb_eq in Bp. subst p0.
+      rewrite exec_S in *. unfold exec_body in *.
+      destruct (rbind_ok _ _ _ _ _ H) as ([vi m1] & E1 & H1). clear H.
+      rewrite (vx_rw E oc n it it0 s mu C _ Bi HI Hc E1). cbn [rbind].
+      destruct (as_list m1 vi) as [[l vs]| |]; cbn [rbind] in *; try discriminate.
+      eapply (for_rw (kill (pvars p ++ bound_block body) E) oc p body body0); try eassumption.
+      * intros n0 s0 mu0 C0 o0 mu0' HI0 Hc0 H0. destruct (IHb _ _ _ _ _ Vb n0 s0 mu0 C0 o0 mu0' HI0 Hc0 H0) as [X _]. exact X.
+      * intros s0 s0' HI0 Hk0. eapply Inv_kill_stable; [exact HI0 | exact Hk0 | apply incl_refl].
+      * apply Inv_weaken. exact HI.
+    + (* SContext *)
+      rewrite vrw_context in Hv. cbv zeta in Hv.
+      match type of Hv with (if ?b then _ else _) = _ => destruct b eqn:B end; [|discriminate].
+      apply andb_prop in B. destruct B as [Bx Be]. apply oident_eqb_eq in Bx. subst x0.
+      rewrite exec_S in *. unfold exec_body in *.
+      destruct (rbind_ok _ _ _ _ _ H) as ([vc m1] & E1 & H1). clear H.
+      pose proof (vx_rw E (Some CReal) n e e0 s mu CReal _ Be HI eq_refl E1) as E1'. rewrite E1'. cbn [rbind].
+      destruct vc; try discriminate.
+      set (oc' := known_ctx claim_ok guess_ctx E e0) in *.
+      assert (Hoc : ctx_ok oc' c).
+      { destruct oc' as [c1|] eqn:Koc; cbn; auto. pose proof (known_ctx_ok E e0 c1 _ s mu _ _ Koc HI E1') as X. inversion X. reflexivity. }
+      set (s1 := match x with Some x0 => env_set s x0 (VCtx c) | None => s end) in *.
+      assert (HI1 : Inv (kill (ovar x) E) s1).
+      { eapply Inv_kill; [exact HI|]. destruct x as [x|]; cbn [ovar]; subst s1; [|apply keeps_refl].
+        intros z Hz. apply env_get_set_other. intro; subst; apply Hz; left; reflexivity. }
+      assert (HI2 : Inv (match x, oc' with Some x0, Some c1 => (x0, ECtxVal c1) :: kill (ovar x) E | _, _ => kill (ovar x) E end) s1).
+      { destruct x as [x|]; [|exact HI1]. destruct oc' as [c1|]; [|exact HI1].
+        cbn in Hoc. subst c1. intros xe [<-|Hin]; [|apply HI1; exact Hin].
+        unfold fact_ok. cbn [fst snd simple is_lit lit_depth sval lit_val]. split; [reflexivity|]. split; [exact HK1|].
+        exists (VCtx c). split; [subst s1; apply env_get_set_same | reflexivity]. }
+      destruct (IHb _ _ _ _ _ Hv n s1 m1 c o mu' HI2 Hoc H1) as [X Y]. split; assumption.
+    + (* SAssert *)
+      rewrite vrw_assert in Hv.
+      match type of Hv with (if ?b then _ else _) = _ => destruct b eqn:B end; [|discriminate].
+      inversion Hv; subst E'. rewrite exec_S in *. unfold exec_body in *.
+      destruct (rbind_ok _ _ _ _ _ H) as ([v m1] & E1 & H1). clear H.
+      rewrite (vx_rw E oc n e e0 s mu C _ B HI Hc E1). cbn [rbind].
+      destruct (as_bool v) as [t| |]; cbn [rbind] in *; try discriminate.
+      destruct t; [|discriminate]. inversion H1; subst. split; [reflexivity | exact HI].
+    + (* SEffect *)
+      rewrite vrw_effect in Hv.
+      match type of Hv with (if ?b then _ else _) = _ => destruct b eqn:B end; [|discriminate].
+      inversion Hv; subst E'. rewrite exec_S in *. unfold exec_body in *.
+      destruct (rbind_ok _ _ _ _ _ H) as ([v m1] & E1 & H1). clear H.
+      rewrite (vx_rw E oc n e e0 s mu C _ B HI Hc E1). cbn [rbind].
+      inversion H1; subst. split; [reflexivity | exact HI].
+    + (* SReturn *)
+      rewrite vrw_return in Hv.
+      match type of Hv with (if ?b then _ else _) = _ => destruct b eqn:B end; [|discriminate].
+      inversion Hv; subst E'. rewrite exec_S in *. unfold exec_body in *.
+      destruct (rbind_ok _ _ _ _ _ H) as ([v m1] & E1 & H1). clear H.
+      rewrite (vx_rw E oc n e e0 s mu C _ B HI Hc E1). cbn [rbind].
+      inversion H1; subst. split; [reflexivity | exact I].
+    + (* SPass *)
+      cbn in Hv. inversion Hv; subst E'. rewrite exec_S in *. unfold exec_body in *. inversion H; subst. split; [reflexivity | exact HI].
+  - (* blocks *)
+    intros E oc b b' E' Hv n s mu C o mu' HI Hc H.
+    destruct n; [discriminate|]. change (S n + K)%nat with (S (n + K)).
+    rewrite exec_block_S in *. unfold exec_block_body in *.
+    destruct b as [|st r], b' as [|st' r']; try (cbn in Hv; discriminate Hv).
+    + cbn in Hv. inversion Hv; subst E'. inversion H; subst. split; [reflexivity | exact HI].
+    + rewrite vrwb_cons in Hv. destruct (vrw K claim_ok guess_ctx d E oc st st') as [E1|] eqn:V1; [|discriminate].
+      destruct (rbind_ok _ _ _ _ _ H) as ([o1 m1] & X1 & H1). clear H.
+      destruct (IHs _ _ _ _ _ V1 n s mu C o1 m1 HI Hc X1) as [Y1 P1]. rewrite Y1. cbn [rbind].
+      destruct o1 as [s1|v1].
+      * eapply IHb; eassumption.
+      * inversion H1; subst. split; [reflexivity | exact I].
+Qed.
+
+Lemma rw_all : forall d, rw_at d.
+Proof.
+  induction d as [|d IH]; [|apply rw_step; exact IH].
+  split; intros; discriminate.
+Qed.
+
+Lemma vrwb_sound : forall d E oc b b' E', vrwb K claim_ok guess_ctx d E oc b b' = Some E' ->
+  forall n s mu C o mu', Inv E s -> ctx_ok oc C -> exec_block N P n s mu C b = ROk (o, mu') ->
+    exec_block N P (n + K) s mu C b' = ROk (o, mu').
+Proof.
+  intros d E oc b b' E' Hv n s mu C o mu' HI Hc H.
+  destruct (rw_all d) as (_ & X). destruct (X _ _ _ _ _ Hv n s mu C o mu' HI Hc H) as [Y _]. exact Y.
+Qed.
 End RW.
